@@ -72,6 +72,33 @@ def gen(tier, seed):
             recs.append(NW.measure_bool(rid, A, B, lift, fname, call, DELTA, None, None, proxy, normal=u))
             meta[rid] = {"A": A.describe(), "B": B.describe(), "clsA": A.classes()[0], "clsB": B.classes()[0], "fn": fname,
                          "lift": [lift[0], lift[1].tolist(), lift[2].tolist()]}
+    # shallow but clear overlaps (2..10 delta) exactly where the world AABB of a rotated body is attained: a rotated ellipsoid /
+    # cylinder / cone / capsule touched at its extreme point along a world axis by a box or sphere (broad-phase style early exits
+    # inside the narrow phase depend on the AABB being right there)
+    poly_s, rnd_s = NW.spec_pool()
+    for i in range(60 if tier == "quick" else 1200):
+        sa = rng.choice([x for x in rnd_s if x["kind"] in ("ellipsoid", "ellipsoid", "cylinder", "cone", "capsule")] or rnd_s)
+        sb = rng.choice([x for x in poly_s if x["kind"] in ("box", "sphere")])
+        MA, _ = rng.choice(NW.S.CUBE); MB, _ = rng.choice(NW.S.CUBE)
+        A = NW.Body(sa, MA, [rng.randint(-2, 2) for _ in range(3)])
+        B0 = NW.Body(sb, MB, [rng.randint(-2, 2) for _ in range(3)])
+        lift = NW.random_lift(rng, A, B0, "rigid")
+        L = NW.scene_L(A, B0, lift)
+        e = np.eye(3)[rng.randrange(3)] * rng.choice((-1, 1))
+        uw = lift[1].T @ e                                         # a world axis of the lifted scene, in the lattice frame
+        pA = np.asarray(A.build(NW.IDENT).support_function(np.ascontiguousarray(uw)), dtype=float)     # where A's world AABB is attained
+        B1 = NW.Body(B0.spec, B0.M, pA - B0.R @ NW.center_local(B0.spec), B0.margin, B0.cls)           # B centred on that point ...
+        g = -B1.support(-uw) - A.support(uw)
+        k = rng.choice((-2, -5, -10, 3))
+        B = NW.Body(B0.spec, B0.M, B1.t + (k * DELTA * L / lift[0] - g) * uw, B0.margin, B0.cls)       # ... and pushed out to a slab gap of k delta
+        for fname, (call, proxy, only) in fns.items():
+            if only is not None or "nesterov" in fname:
+                continue
+            n += 1
+            rid = f"b{n}"
+            recs.append(NW.measure_bool(rid, A, B, lift, fname, call, DELTA, None, None, proxy, normal=uw))
+            meta[rid] = {"A": A.describe(), "B": B.describe(), "clsA": A.classes()[0], "clsB": B.classes()[0], "fn": fname,
+                         "lift": [lift[0], lift[1].tolist(), lift[2].tolist()], "family": "world-axis-tip"}
     # polytope pairs at the smallest feature sizes of the domain with a clear gap of 2..5 delta and generic lateral offsets, chosen
     # (among 40 random offsets) so that the origin lies close to the line through the first two simplex points of a GJK started
     # from first_vertex() - the branch "origin on the first edge" of the simplex case analyses, whose tolerance is absolute
